@@ -368,7 +368,18 @@ lzma_lzma2_encoder_memusage(const void *options)
 	if (lzma_mem == UINT64_MAX)
 		return UINT64_MAX;
 
-	return sizeof(lzma_lzma2_coder) + lzma_mem;
+	// With a small dictionary lzma2_encoder_init() increases
+	// lz_options.before_size so that dict_size + before_size is at least
+	// LZMA2_CHUNK_MAX. lzma_lzma_encoder_memusage() doesn't know about
+	// that. The LZ encoder allocates the increase plus half of it as
+	// extra reserve. This slightly overestimates the increase because
+	// the default before_size isn't subtracted.
+	const lzma_options_lzma *opt = options;
+	uint64_t extra = 0;
+	if (opt->dict_size < LZMA2_CHUNK_MAX)
+		extra = (uint64_t)(LZMA2_CHUNK_MAX - opt->dict_size) * 3 / 2;
+
+	return sizeof(lzma_lzma2_coder) + lzma_mem + extra;
 }
 
 
